@@ -99,6 +99,27 @@ func (env *Env) heap(name string) Term {
 	return env.st.get(name)
 }
 
+// readCell: the content of the cell a pointer (a ground term) points to, in the state of the environment. The heap
+// is closed in every reachable state: a non-nil cell only holds references to memory that exists in that state.
+func (env *Env) readCell(elem types.Type, ptr Term) Term {
+	e := env.e
+	t := app("select", env.heap(e.cellHeap(elem)), ptr)
+	if env.lazy == nil && env.st != nil && env.st.fv != nil && len(boundVarsIn(ptr)) == 0 && !env.inOld {
+		fv := env.st.fv
+		if f := fv.wfVal(t, elem, env.st.get("alloc"), 0); f != "true" {
+			key := "closed:" + string(t) + "<" + string(env.st.get("alloc"))
+			if !fv.closedSeen[key] {
+				if fv.closedSeen == nil {
+					fv.closedSeen = map[string]bool{}
+				}
+				fv.closedSeen[key] = true
+				fv.assumeAtBlk(env.st.blk, "true", implies(not(eq(ptr, "0")), f))
+			}
+		}
+	}
+	return t
+}
+
 var noAutoTriggers = os.Getenv("QV_NOTRIG") != ""
 
 type specError struct{ msg string }
@@ -221,7 +242,7 @@ func (env *Env) tr(x Expr) TV {
 			if a, isArr := p.Elem().Underlying().(*types.Array); isArr {
 				return TV{app("select", env.heap(e.elemHeap(a.Elem())), v.T), p.Elem()}
 			}
-			return TV{app("select", env.heap(e.cellHeap(p.Elem())), v.T), p.Elem()}
+			return TV{env.readCell(p.Elem(), v.T), p.Elem()}
 		}
 	case *EBin:
 		return env.trBin(x)
@@ -424,7 +445,7 @@ func (env *Env) findField(b TV, name string) (TV, bool) {
 	t := b.Ty
 	if p, ok := t.Underlying().(*types.Pointer); ok {
 		if _, isStruct := p.Elem().Underlying().(*types.Struct); isStruct {
-			b = TV{app("select", env.heap(e.cellHeap(p.Elem())), b.T), p.Elem()}
+			b = TV{env.readCell(p.Elem(), b.T), p.Elem()}
 			t = p.Elem()
 		}
 	}
